@@ -242,7 +242,7 @@ impl Gen {
             11 => Op::SplitOff { at: rand_index(r, cur), swap: r.chance(1, 3) },
             12 => Op::ExtendChars { k: r.below(2) as u8, cs: rand_text(r, 4).chars().collect() },
             13 => Op::ExtendStrs { k: r.below(4) as u8, ts: (0..r.below(4)).map(|_| rand_text(r, 3)).collect() },
-            14 => Op::CloneS { swap: r.chance(1, 2) },
+            14 => if r.chance(1, 2) { Op::CloneS { swap: r.chance(1, 2) } } else { Op::CloneFrom(rand_text(r, 5)) },
             15 => Op::Write { t: rand_text(r, 3), n: r.pick(&[0i64, 7, -1, 42, 1234567, i64::MIN, i64::MAX]) },
             16 => Op::Format { t: rand_text(r, 3), n: r.pick(&[0i64, -5, 99, 1000]) },
             17 => Op::IntoBumpStr,
